@@ -175,7 +175,7 @@ def diff_snap(a, b):
     return None
 
 
-OPS = ("group", "points", "curve", "data", "rename", "move", "copy", "remove_ws", "remove_parent", "pg_add", "pg_remove", "reopen", "gc", "flag", "copy_edit", "remove_vertex", "move_data")
+OPS = ("group", "points", "curve", "data", "rename", "move", "copy", "remove_ws", "remove_parent", "pg_add", "pg_remove", "reopen", "gc", "flag", "copy_edit", "remove_vertex", "move_data", "protect", "remove_protected")
 
 
 def run_ops(case):
@@ -238,6 +238,28 @@ def run_ops(case):
                 o = pick(objs(), a)
                 if o is not None:
                     o.copy(parent=pick(groups(), b) or ws.root)
+            elif op == "protect":
+                o = pick(objs() + groups(), a)
+                if o is not None:
+                    o.allow_delete = False
+            elif op == "remove_protected":
+                # a request to remove an entity whose delete permission is off is refused and changes nothing
+                cands = [x for x in objs() + groups() if not x.allow_delete]
+                t = pick(cands, a)
+                if t is not None:
+                    before = tree_snapshot(ws)
+                    try:
+                        ws.remove_entity(t)
+                        refused = False
+                    except UserWarning:
+                        refused = True
+                    del t, cands
+                    gc.collect()
+                    if not refused:
+                        return f"{where}: an entity whose delete permission is off was removed ({case})"
+                    bad = diff_snap(before, tree_snapshot(ws)) or diff_snap(tree_snapshot(ws), before)
+                    if bad:
+                        return f"{where}: a refused removal changed the workspace: {bad} ({case})"
             elif op == "move_data":
                 # re-parent a data set (preferably one that belongs to a property group) to another object of the same size
                 srcs = [x for x in objs() if any(hasattr(c, "values") for c in x.children)]
@@ -262,7 +284,10 @@ def run_ops(case):
                 if o is not None:
                     o.remove_vertices([b % (o.n_vertices - 1)])
             elif op in ("remove_ws", "remove_parent"):
-                cands = objs() + [g for g in groups()] + [c for o in objs() for c in o.children if hasattr(c, "values")]
+                def deletable(x):  # the entity and everything below it may be deleted (protected ones have their own op)
+                    return bool(getattr(x, "allow_delete", True)) and all(deletable(c) for c in getattr(x, "children", []) if hasattr(c, "uid") and hasattr(c, "allow_delete"))
+
+                cands = [x for x in objs() + [g for g in groups()] + [c for o in objs() for c in o.children if hasattr(c, "values")] if deletable(x)]
                 t = pick(cands, a)
                 if t is None:
                     del cands
@@ -352,7 +377,7 @@ class ApiHistories(Contract):
     symbolic = False
     has_native = True
     props = ("C01", "C02", "C05", "C09")
-    bounded_scope = "seeded operation sequences of length 6-14 over {create group/points/curve/data, rename, flag, move, copy, copy then edit the copy's values in place, remove a vertex, move a data set to another object, remove through the workspace / through the parent, property-group add/remove, re-open, gc}: 40 sequences (quick) / 600 (thorough) + 10 fixed; WF(file) after every close, live tree == re-opened tree, removed entities stay gone, idle open/close leaves all node digests unchanged"
+    bounded_scope = "seeded operation sequences of length 6-14 over {create group/points/curve/data, rename, flag, move, copy, copy then edit the copy's values in place, remove a vertex, move a data set to another object, switch a delete permission off and ask for the removal (also after a re-open), remove through the workspace / through the parent, property-group add/remove, re-open, gc}: 40 sequences (quick) / 600 (thorough) + 10 fixed; WF(file) after every close, live tree == re-opened tree, removed entities stay gone, idle open/close leaves all node digests unchanged"
     fixed = [
         [("group", 0, 0), ("points", 0, 0), ("data", 0, 0), ("data", 0, 0), ("data", 0, 0), ("data", 0, 0), ("remove_ws", 0, 0), ("reopen", 0, 0)],
         [("points", 0, 0), ("data", 0, 0), ("data", 0, 0), ("pg_add", 0, 1), ("pg_add", 0, 0), ("remove_ws", 2, 0), ("reopen", 0, 0)],
@@ -361,6 +386,8 @@ class ApiHistories(Contract):
         [("points", 0, 0), ("data", 0, 0), ("copy", 0, 0), ("rename", 0, 0), ("reopen", 0, 0), ("remove_parent", 0, 0), ("reopen", 0, 0)],
         [("points", 0, 0), ("data", 0, 0), ("flag", 0, 0), ("rename", 0, 0), ("flag", 0, 0), ("reopen", 0, 0), ("rename", 0, 0), ("reopen", 0, 0)],
         [("curve", 0, 0), ("data", 0, 0), ("remove_vertex", 0, 1), ("reopen", 0, 0), ("remove_vertex", 0, 0), ("reopen", 0, 0)],
+        [("group", 0, 0), ("points", 0, 0), ("data", 0, 0), ("protect", 0, 0), ("remove_protected", 0, 0), ("reopen", 0, 0), ("remove_protected", 0, 0), ("reopen", 0, 0)],
+        [("points", 0, 0), ("protect", 1, 0), ("reopen", 0, 0), ("remove_protected", 0, 0), ("remove_protected", 1, 0)],
         [("points", 0, 0), ("points", 0, 0), ("data", 0, 0), ("data", 0, 0), ("pg_add", 0, 0), ("move_data", 0, 0), ("reopen", 0, 0), ("move_data", 1, 0), ("reopen", 0, 0)],
         [("points", 0, 0), ("data", 0, 0), ("copy_edit", 0, 0), ("reopen", 0, 0), ("copy_edit", 1, 0), ("reopen", 0, 0)],
         [("group", 0, 0), ("curve", 0, 0), ("data", 0, 0), ("data", 0, 0), ("copy_edit", 0, 0), ("remove_vertex", 0, 2), ("reopen", 0, 0)],
